@@ -272,6 +272,11 @@ def check_push_leniency(ctx, eng):
            'else is a connection error', node=fi.node)
 
 
+UNCONDITIONAL_TOLERANCE = {'_receive_rst_stream_frame',
+                           '_receive_window_update_frame',
+                           '_receive_alt_svc_frame'}
+
+
 def check_lookup_contracts(ctx, eng):
     """Which lookup each frame handler uses and which lookup failures it
     tolerates: a frame on a forgotten (closed) stream may be tolerated where
@@ -336,6 +341,27 @@ def check_lookup_contracts(ctx, eng):
         elif 'StreamClosedError' in tolerated:
             ctx.ob('FSM.layer3', fi.qual, 'closed-stream answer is complete',
                    True, 'no StreamClosedError leaves the handler',
+                   node=fi.node)
+        if name in UNCONDITIONAL_TOLERANCE:
+            # tolerated means tolerated: once the handler has caught the
+            # lookup's refusal it does not turn it back into an error (a
+            # frame for a stream that is gone - however it went - is legal
+            # here: RFC 7540 sections 5.1 "closed", 6.4, 6.9)
+            worse = []
+            for p in paths:
+                got = [e for e in p.events if e.kind == 'catch' and
+                       e.frame == fi.qual and set(e.names) & exp]
+                if not got or p.exit != 'raise':
+                    continue
+                r = cm.explicit_raise(p)
+                if p.exc.get('reraise') or (
+                        r is not None and r.get('frame') == fi.qual and
+                        p.index(r) > p.index(got[0])):
+                    worse.append(sorted(p.exc['names']))
+            ctx.ob('FSM.layer3', fi.qual, 'tolerance is unconditional',
+                   not worse, 'after catching %s the handler goes on '
+                   'normally%s' % (sorted(exp), (
+                       ' (raises %s)' % worse[:2]) if worse else ''),
                    node=fi.node)
         ctx.ob('FSM.layer3', fi.qual, 'stream lookup contract',
                uses > 0 and argok and caught == exp,
